@@ -1,13 +1,245 @@
 import PpciVerif.Model.ConstFold
 import PpciVerif.Spec.IRArith
+import PpciVerif.Spec.ConstExpr
 import PpciVerif.Gen.ConstFold
+import PpciVerif.Proofs.IRArith
+import PpciVerif.Proofs.ConstFold
+/-!
+# C38 — constant folding agrees with run-time arithmetic
+
+Property theorems only.  Model: `Model.ConstFold` (hand model of
+`ppci/opt/constantfolding.py` after the `fix:` commit, tied by the table dump
+`Gen.ConstFold` and by correspondence).  Spec: `Spec.IRArith` (run-time integer
+arithmetic of the IR), `Spec.ConstExpr` (its lifting to constant expression trees).
+`tyOf`, `embed`, `Foldable`, `AllFoldable` are defined in `Proofs.ConstFold`.
+
+All theorems quantify over all eight integer types, all operators of the folder's
+table and all operand values (unbounded `Int`, restricted only by `InRange`).
+-/
 namespace Props.C38
-open Model.ConstFold
+open Model.ConstFold Spec.IRArith Spec.ConstExpr Proofs.IRArith Proofs.ConstFold
 
+/-! ### the model's tables are the tables of the checked source tree (translation) -/
+
+/-- `ConstantFolder().ops` of the live object: same keys, same order, same wrapped Python function. -/
 theorem ops_table_matches_source :
-    ops.map (fun (k, f) => (k, "operator." ++ f.pyName)) = Gen.ConstFold.ops := by decide
+    ops.map (fun (k, f) => (k, f.pyName)) = Gen.ConstFold.ops := by decide
 
+/-- the integer types of `ppci.ir.value_types`: same names, widths and signedness. -/
 theorem int_types_match_source :
     intTypes.map (fun t => (t.name, t.bits, t.signed)) = Gen.ConstFold.intTypes := by decide
+
+/-- the model's types are exactly the specification's types. -/
+theorem int_types_are_spec_types :
+    intTypes = [Ty.i64, .i32, .i16, .i8, .u64, .u32, .u16, .u8].map tyOf ∧
+    ∀ ty : Ty, (tyOf ty).name = ty.name ∧ (tyOf ty).bits = ty.bits ∧ (tyOf ty).signed = ty.signed :=
+  ⟨by decide, fun ty => by cases ty <;> decide⟩
+
+/-- every key of the folder's table is an `ir.Binop` operator and an operator of the specification. -/
+theorem ops_keys_are_binops :
+    ∀ k ∈ ops.map Prod.fst, k ∈ Gen.ConstFold.binopOps ∧ k ∈ Op.all.map Op.symbol := by decide
+
+/-- the foldable operators are exactly `+ - * % << >>`. -/
+theorem foldable_iff (op : Op) :
+    Foldable op ↔ op = .add ∨ op = .sub ∨ op = .mul ∨ op = .rem ∨ op = .shl ∨ op = .shr := by
+  cases op <;> decide
+
+/-! ### one `Binop` of two constants -/
+
+/-- **Agreement.** For every type, every operator of the folder and all operand values of the
+    type: if the operation is defined at run time with value `v`, the pass replaces the
+    instruction by the constant `v` (in particular it does not raise). -/
+theorem fold_agrees (ty : Ty) (op : Op) (a b v : Int) (hop : Foldable op)
+    (ha : InRange ty a) (hb : InRange ty b) (h : binop ty op a b = some v) :
+    onInstr (.binop (tyOf ty) op.symbol (.const (tyOf ty) a) (.const (tyOf ty) b))
+      = .ok (.replace (tyOf ty) v) := by
+  obtain ⟨f, hf⟩ := Option.isSome_iff_exists.mp hop
+  have hv := enhance_agrees ty op f a b v hf ha hb h
+  simp [onInstr, isConst, evalConst, hf, hv]
+
+/-- **Range.** Whatever the operand values (in range or not, operation defined or not): a constant
+    created for a `Binop` has the instruction's type and lies in that type's range. -/
+theorem fold_in_range (ty : Ty) (op : String) (a b : Expr) (t : Typ) (r : Int)
+    (h : onInstr (.binop (tyOf ty) op a b) = .ok (.replace t r)) : t = tyOf ty ∧ InRange ty r := by
+  simp only [onInstr] at h
+  split at h
+  · split at h
+    · rename_i t' v' heq
+      simp at h; obtain ⟨h1, h2⟩ := h; subst h1 h2
+      exact evalConst_binop_inRange ty op a b _ _ heq
+    · simp at h
+  · repeat' split at h
+    all_goals try (simp at h; done)
+
+/-- … and so does a constant created for a `Cast` of any constant expression. -/
+theorem cast_in_range (ty : Ty) (src : Expr) (t : Typ) (r : Int)
+    (h : onInstr (.cast (tyOf ty) src) = .ok (.replace t r)) : t = tyOf ty ∧ InRange ty r := by
+  simp only [onInstr] at h
+  split at h
+  · split at h
+    · rename_i t' v' heq
+      simp at h; obtain ⟨h1, h2⟩ := h; subst h1 h2
+      exact evalConst_cast_inRange ty src _ _ heq
+    · simp at h
+  · simp at h
+
+/-- operators outside the table (`/ & | ^`) are never folded. -/
+theorem unfoldable_kept (ty : Ty) (op : Op) (a b : Int) (hop : ¬ Foldable op) :
+    onInstr (.binop (tyOf ty) op.symbol (.const (tyOf ty) a) (.const (tyOf ty) b)) = .ok .keep := by
+  cases op <;> first | exact absurd (by decide) hop | rfl
+
+/-! ### casts -/
+
+/-- every integer cast of a constant folds to the run-time value of the cast, for every source
+    value; the new constant is a value of the target type. -/
+theorem cast_agrees (src to : Ty) (v : Int) :
+    onInstr (.cast (tyOf to) (.const (tyOf src) v)) = .ok (.replace (tyOf to) (Spec.IRArith.cast to v))
+    ∧ InRange to (Spec.IRArith.cast to v) := by
+  refine ⟨?_, cast_inRange to v⟩
+  simp [onInstr, isConst, evalConst, Model.ConstFold.cast, correct_eq_wrap, Spec.IRArith.cast]
+
+/-! ### nested constant expressions (`eval_const` recurses) -/
+
+/-- For every well-formed constant expression tree over the folder's operators and casts whose
+    run-time evaluation is defined with value `v`: `is_const` holds and `eval_const` yields the
+    constant `v` of the tree's type, and `v` is a value of that type. -/
+theorem tree_agrees (e : SExpr) (v : Int) (hwf : e.WF) (hf : AllFoldable e) (h : e.eval = some v) :
+    isConst (embed e) = true ∧ evalConst (embed e) = .ok (tyOf e.ty, v) ∧ InRange e.ty v := by
+  obtain ⟨h1, h2, h3⟩ := evalConst_embed e v hwf hf h
+  exact ⟨h2, h1, h3⟩
+
+/-- … hence the pass replaces every such non-`Const` instruction by the constant `v`. -/
+theorem tree_replaced (e : SExpr) (v : Int) (hwf : e.WF) (hf : AllFoldable e) (h : e.eval = some v)
+    (hnc : ∀ ty c, e ≠ .const ty c) : onInstr (embed e) = .ok (.replace (tyOf e.ty) v) := by
+  obtain ⟨h1, h2, _⟩ := tree_agrees e v hwf hf h
+  cases e with
+  | const ty c => exact absurd rfl (hnc ty c)
+  | cast ty s => simp only [embed] at h1 h2 ⊢; simp [onInstr, h1, h2]
+  | binop ty op a b => simp only [embed] at h1 h2 ⊢; simp [onInstr, h1, h2]
+
+/-! ### chain rewrites  (y ∘ c1) ∘ c2  ↦  y ∘ c3   for ∘ ∈ {+, -} -/
+
+/-- Shared statement: for `op` = `+` or `-`, any non-constant `y` of the type and any two constant
+    expressions with run-time values `v1`, `v2`, the pass re-links the instruction to `y op c3`
+    where `c3` is a value of the type and, for every run-time value of `y`, the rewritten
+    instruction computes what the original two instructions computed. -/
+theorem chain_sound (ty : Ty) (op : Op) (hop : op = .add ∨ op = .sub) (y : Expr) (c1 c2 : SExpr) (v1 v2 : Int)
+    (hy : isConst y = false) (hyt : y.ty = tyOf ty)
+    (ht1 : c1.ty = ty) (ht2 : c2.ty = ty) (hw1 : c1.WF) (hw2 : c2.WF)
+    (hf1 : AllFoldable c1) (hf2 : AllFoldable c2) (he1 : c1.eval = some v1) (he2 : c2.eval = some v2) :
+    ∃ c3, onInstr (.binop (tyOf ty) op.symbol (.binop (tyOf ty) op.symbol y (embed c1)) (embed c2))
+            = .ok (.rechain y (tyOf ty) c3)
+      ∧ InRange ty c3
+      ∧ ∀ yv, InRange ty yv →
+          (binop ty op yv v1).bind (fun t => binop ty op t v2) = binop ty op yv c3 := by
+  obtain ⟨a1, a2, _⟩ := evalConst_embed c1 v1 hw1 hf1 he1
+  obtain ⟨b1, b2, _⟩ := evalConst_embed c2 v2 hw2 hf2 he2
+  rw [ht1] at a1; rw [ht2] at b1
+  refine ⟨wrap ty (v1 + v2), ?_, wrap_inRange ty _, ?_⟩
+  · rcases hop with rfl | rfl <;>
+      simp [onInstr, isConst, hy, a1, a2, b1, b2, Op.symbol, chainConst, correct_eq_wrap, hyt]
+  · intro yv _
+    rcases hop with rfl | rfl
+    · simp only [binop, Option.bind_some, Option.some.injEq]
+      rw [wrap_add_wrap_left, wrap_add_wrap_right, Int.add_assoc]
+    · simp only [binop, Option.bind_some, Option.some.injEq]
+      rw [wrap_sub_wrap_left, wrap_sub_wrap_right]; congr 1; omega
+
+/-- `(y + c1) + c2 ↦ y + c3` -/
+theorem chain_add (ty : Ty) (y : Expr) (c1 c2 : Int) (hy : isConst y = false) (hyt : y.ty = tyOf ty)
+    (h1 : InRange ty c1) (h2 : InRange ty c2) :
+    ∃ c3, onInstr (.binop (tyOf ty) "+" (.binop (tyOf ty) "+" y (.const (tyOf ty) c1)) (.const (tyOf ty) c2))
+            = .ok (.rechain y (tyOf ty) c3)
+      ∧ InRange ty c3
+      ∧ ∀ yv, InRange ty yv → (binop ty .add yv c1).bind (fun t => binop ty .add t c2) = binop ty .add yv c3 :=
+  chain_sound ty .add (Or.inl rfl) y (.const ty c1) (.const ty c2) c1 c2 hy hyt rfl rfl h1 h2 trivial trivial rfl rfl
+
+/-- `(y - c1) - c2 ↦ y - c3` -/
+theorem chain_sub (ty : Ty) (y : Expr) (c1 c2 : Int) (hy : isConst y = false) (hyt : y.ty = tyOf ty)
+    (h1 : InRange ty c1) (h2 : InRange ty c2) :
+    ∃ c3, onInstr (.binop (tyOf ty) "-" (.binop (tyOf ty) "-" y (.const (tyOf ty) c1)) (.const (tyOf ty) c2))
+            = .ok (.rechain y (tyOf ty) c3)
+      ∧ InRange ty c3
+      ∧ ∀ yv, InRange ty yv → (binop ty .sub yv c1).bind (fun t => binop ty .sub t c2) = binop ty .sub yv c3 :=
+  chain_sound ty .sub (Or.inr rfl) y (.const ty c1) (.const ty c2) c1 c2 hy hyt rfl rfl h1 h2 trivial trivial rfl rfl
+
+/-- Whatever the constants evaluate to (even out-of-range operands): the constant created by a
+    chain rewrite is a value of the instruction's type. -/
+theorem chain_in_range (ty : Ty) (op : String) (y c1 c2 : Expr) (op1 : String) (y' : Expr) (t : Typ) (r : Int)
+    (h : onInstr (.binop (tyOf ty) op (.binop (tyOf ty) op1 y c1) c2) = .ok (.rechain y' t r)) :
+    t = tyOf ty ∧ InRange ty r := by
+  simp only [onInstr] at h
+  repeat' split at h
+  all_goals try (simp at h; done)
+  rename_i hta hty hyy
+  simp at h hta hty
+  obtain ⟨-, h2, h3⟩ := h
+  subst h2
+  refine ⟨hty.symm, ?_⟩
+  rw [← h3, ← hty, chainConst, correct_eq_wrap]; exact wrap_inRange ty _
+
+/-- The oracle used on the real pass: an in-range constant `c3` makes `y op c3` equal to
+    `(y op c1) op c2` for every `y` **iff** `c3` is the wrapped sum — so comparing the real pass's
+    constant with `Spec.binop ty + c1 c2` decides the chain property for all `y` at once. -/
+theorem chain_unique (ty : Ty) (op : Op) (hop : op = .add ∨ op = .sub) (c1 c2 c3 : Int) (h3 : InRange ty c3) :
+    (∀ yv, InRange ty yv → (binop ty op yv c1).bind (fun t => binop ty op t c2) = binop ty op yv c3)
+      ↔ binop ty .add c1 c2 = some c3 := by
+  have h0 : InRange ty 0 := by cases ty <;> decide
+  constructor
+  · intro h
+    have := h 0 h0
+    simp only [binop, Option.some.injEq]
+    apply eq_of_emod_eq ty _ _ (wrap_inRange ty _) h3
+    rw [wrap_emod]
+    rcases hop with rfl | rfl <;> simp only [binop, Option.bind_some, Option.some.injEq, Int.zero_add] at this
+    · rw [wrap_add_wrap_left] at this
+      have e := congrArg (· % 2 ^ ty.bits) this
+      simp only [wrap_emod] at e
+      exact e
+    · rw [wrap_sub_wrap_left] at this
+      have e := congrArg (· % 2 ^ ty.bits) this
+      simp only [wrap_emod] at e
+      cases ty <;> simp [Ty.bits] at e ⊢ <;> omega
+  · intro h yv _
+    simp only [binop, Option.some.injEq] at h
+    subst h
+    rcases hop with rfl | rfl
+    · simp only [binop, Option.bind_some, Option.some.injEq]
+      rw [wrap_add_wrap_left, wrap_add_wrap_right, Int.add_assoc]
+    · simp only [binop, Option.bind_some, Option.some.injEq]
+      rw [wrap_sub_wrap_left, wrap_sub_wrap_right]; congr 1; omega
+
+/-- mixed chains `(y + c1) - c2`, `(y - c1) + c2` are left alone. -/
+theorem mixed_chain_kept (t : Typ) (y c1 c2 : Expr) (hy : isConst y = false) :
+    onInstr (.binop t "-" (.binop t "+" y c1) c2) = .ok .keep ∧
+    onInstr (.binop t "+" (.binop t "-" y c1) c2) = .ok .keep := by
+  simp [onInstr, isConst, hy]
+
+/-! ### non-vacuity / concrete instances (tests, labelled as such) -/
+
+-- the two defects this property found (before the `fix:` commit), as kernel-checked facts:
+-- 1. `operator.mod` (Python floor-mod, `PyOp.mod`) in the `%` slot disagrees with the run-time value
+example : binop .i8 .rem (-7) 3 = some (-1) ∧ enhance .mod (tyOf .i8) (-7) 3 = .ok 2 := by decide +kernel
+example : binop .i8 .rem 7 (-3) = some 1 ∧ enhance .mod (tyOf .i8) 7 (-3) = .ok (-2) := by decide +kernel
+-- 2. the unwrapped chain constant `c1 + c2` is not a value of the type
+example : InRange .i8 100 ∧ ¬ InRange .i8 (100 + 100) := by decide
+-- after the fix
+example : onInstr (.binop i8 "%" (.const i8 (-7)) (.const i8 3)) = .ok (.replace i8 (-1)) := by decide +kernel
+example : onInstr (.binop i8 "+" (.binop i8 "+" (.other i8 0) (.const i8 100)) (.const i8 100))
+    = .ok (.rechain (.other i8 0) i8 (-56)) := by decide +kernel
+example : binop .i8 .add 100 100 = some (-56) ∧ binop .u8 .sub 0 1 = some 255 := by decide +kernel
+example : binop .i8 .shr (-128) 7 = some (-1) ∧ binop .u8 .shr 255 7 = some 1 := by decide +kernel
+example : binop .i8 .rem (-128) (-1) = none ∧ binop .i8 .rem 5 0 = none ∧ binop .i8 .shl 1 8 = none := by decide +kernel
+example : binop .i64 .mul (2 ^ 62) 2 = some (-(2 ^ 63)) := by decide +kernel
+-- hypotheses of `fold_agrees`, `tree_agrees`, `chain_sound` are satisfiable
+example : Foldable .rem ∧ InRange .i8 (-7) ∧ InRange .i8 3 := by decide
+example : (SExpr.binop .i8 .add (.cast .i8 (.const .u16 300)) (.const .i8 100)).WF
+    ∧ AllFoldable (SExpr.binop .i8 .add (.cast .i8 (.const .u16 300)) (.const .i8 100))
+    ∧ (SExpr.binop .i8 .add (.cast .i8 (.const .u16 300)) (.const .i8 100)).eval = some (-112) := by
+  refine ⟨by simp [SExpr.WF, SExpr.ty]; decide, by simp [AllFoldable]; decide, by decide +kernel⟩
+example : isConst (.other i8 0) = false ∧ (Expr.other i8 0).ty = tyOf .i8 := by decide
+-- undefined operands: the pass raises (outside the property; recorded in notes/C38.md)
+example : onInstr (.binop i8 "%" (.const i8 5) (.const i8 0)) = .error .ZeroDivisionError := by decide +kernel
+example : onInstr (.binop i8 "<<" (.const i8 1) (.const i8 (-1))) = .error .ValueError := by decide +kernel
 
 end Props.C38
